@@ -27,7 +27,14 @@ func debugDump(p *Prog, what string) {
 			os.Exit(2)
 		}
 		m := NewInterpModel(p, what)
-		mc := m.Explore(fn, nil, nil)
+		m.EmitTests = os.Getenv("DBGTESTS") != ""
+		var prms []AV
+		if m.EmitTests {
+			for _, prm := range fn.Params {
+				prms = append(prms, Sym(prm.Name()))
+			}
+		}
+		mc := m.Explore(fn, prms, nil)
 		g, und = m.G, m.Undecided
 		fmt.Printf("states=%d paths=%d\n", mc.States, mc.Paths)
 	default:
@@ -239,6 +246,8 @@ func init() {
 }
 
 func init() {
+	debugHooks["rets"] = func(p *Prog, what string) { debugRets(p) }
+	debugHooks["children"] = func(p *Prog, what string) { debugChildren(p) }
 	debugHooks["nonnil"] = func(p *Prog, what string) {
 		w := p.Wiring()
 		debugNonNil = true
@@ -293,6 +302,34 @@ func init() {
 		ws, _ := m.G.Words(100)
 		for _, w := range ws {
 			fmt.Println(normName(wordString(w)))
+		}
+	}
+}
+
+func debugChildren(p *Prog) {
+	cs := getClauses(p)
+	seen := map[string]bool{}
+	for _, m := range cs.all() {
+		for _, e := range m.G.Events("eval") {
+			k := m.Scenario + " :: " + e.KV["child"] + " :: " + e.KV["env"]
+			if !seen[k] {
+				seen[k] = true
+				fmt.Println(k)
+			}
+		}
+	}
+}
+
+func debugRets(p *Prog) {
+	pinfo := getParser(p)
+	seen := map[string]bool{}
+	for _, name := range pinfo.Names {
+		for _, pt := range successPaths(pinfo.Models[name]) {
+			k := name + " :: " + pt.ret
+			if !seen[k] {
+				seen[k] = true
+				fmt.Println(k)
+			}
 		}
 	}
 }
